@@ -44,7 +44,10 @@ CHECKS["C16"] = dict(
          "repository's own theories) the real generated functions are executed symbolically over arbitrary disjoint new/old tables; the "
          "solver shows that every variable assignment is enumerated exactly once if its match contains a new tuple and never otherwise, "
          "and that all sub-rules of a family are the same query once ages are erased (functionality rule: up to its symmetry). This validates "
-         "the translation source rule -> semi-naive plan -> Rust text per compiled program, which is the level the property is stated at.",
+         "the translation source rule -> semi-naive plan -> Rust text per compiled program, which is the level the property is stated at. "
+         "In addition, at the rule level and independent of the model size (for matches with pairwise distinct values): on the canonical database of every "
+         "reference stage's premise, with a symbolic age per premise tuple, the rule module enumerates the match exactly once iff some premise tuple is new "
+         "(this phase also covers the 11-atom rule of kernel manyvars, which is too large for the table-level query).",
     design_ref="§4 C16, §9",
     note="Trusted: PrefixTreeN set semantics (C08 check), the symbolic executor (validated against native runs in the C01/C04 checks). "
          "Programs are sampled; table contents and variable assignments are decided by the solver for universes of 2 (quick) and 3 (thorough) elements.")
